@@ -237,6 +237,9 @@ static void wakeup_event_resource(void *vp, void *arg)
     }
 }
 
+/* For the sweep in cmi_process_cancel_awaiteds, which must know the library's own wakeup calls */
+cmb_event_func *const cmi_resourceguard_wakeup_action = wakeup_event_resource;
+
 /*
  * cmb_resourceguard_signal - Rings the bell for a resource guard to check if
  * any of the waiting processes should be resumed. Will evaluate the demand
